@@ -19,6 +19,6 @@ DIFFERENT in mechanism (not the same site with another constant):
 Aim for changes that are HARDER to notice: ones that need a rarer combination (two optional features together, a boundary value of a
 size or count, a particular order of statements/records/cells, a value that is legal but unusual, an error path taken only after a
 successful prefix, state left over from an earlier element in the same file), or two cooperating edits in different functions that each
-look harmless alone. Name the deliverable directories m4, m5, m6 (not m1..m3).
+look harmless alone. Name the deliverable directories m7, m8, m9 (not m1..m6).
 """ % ("\n".join(prev) if prev else "(none)")
-print(base.replace("m<i>", "m<i+3>").rstrip() + extra)
+print(base.replace("m<i>", "m<i+6>").rstrip() + extra)
